@@ -919,6 +919,16 @@ def _epoch_init_keys():
     return _EPOCH_KEYS[0]
 
 
+def _epoch_prog():
+    import importlib.util
+    path = os.path.join(os.path.dirname(os.path.dirname(os.path.dirname(os.path.abspath(__file__)))),
+                        "tools", "gen", "c05_epochs.py")
+    sp_ = importlib.util.spec_from_file_location("c05_epochs_gen2", path)
+    mod = importlib.util.module_from_spec(sp_)
+    sp_.loader.exec_module(mod)
+    return mod.read()["prog"]
+
+
 def epoch_tables_check(lab):
     """The prediction of coq/props/C05.v `epoch_tables_total` on the implementation: once _initialize() has run, the key
     lists of _cryptos / _crypto_buffers / _crypto_streams / _spaces are the ones _initialize creates -- after ANY history
@@ -2640,6 +2650,28 @@ def run(ctx):
     stats["frames_tls_layer"] = dict(FR_TLS)
     # epoch-keyed tables: theorem epoch_tables_total's prediction against the subject's dicts, every oracle world
     stats["epoch_tables_tie"] = {k: v for k, v in EPOCH_TIE.items() if k != "first"}
+    # the epoch-table obligations (discard_body_keeps: _discard_epoch removes no entry; key_facts_hold; epoch_sites_known; the
+    # generator's fail-closed shapes) broken on this tree are a `proof` violation of their own: harness/main.py reports a broken
+    # closure only when the search found no concrete failing input, and this one should be visible next to the replay
+    try:
+        broken = [b for b in ctx.broken_deps() if "ConnEpochs" in b or "C05Epochs" in b or "c05_epochs" in b]
+    except Exception:
+        broken = []
+    if broken:
+        log = (ctx.build or {}).get("log", "") or ""
+        i = log.find('File "./proofs/ConnEpochsP.v"')
+        if i < 0:
+            i = log.find('File "./model/ConnEpochs.v"')
+        if i < 0:
+            i = log.find("ConnEpochs")
+        ctx.violation("proof",
+                      "epochs: the proof obligations about the epoch-keyed dicts (coq/props/C05.v epoch_tables_total: after "
+                      "_initialize no subscript of _cryptos / _crypto_buffers / _crypto_streams / _spaces raises KeyError) no longer "
+                      "check against this tree: %s" % "; ".join(broken),
+                      None, signature={"suite": "epochs", "kind": "proof"},
+                      extra={"broken": broken, "coq_error": log[i:i + 600] if i >= 0 else "",
+                             "generated_discard_body": peek(lambda: _epoch_prog(), None, "epoch generator")},
+                      no_input=True)
     if EPOCH_TIE["first"] is not None:
         f_ = EPOCH_TIE["first"]
         ctx.violation("correspondence",
